@@ -103,10 +103,10 @@ CHECKS.update({
                 technique="deterministic simulation: seeded worker interleavings and map orders, injected VCS and I/O faults, metamorphic repeats against a reference model",
                 design="§4 C10", real=REAL_E4, rule="one case = one universe with 2-4 resolutions; distinct by (universe, interleaving) hash", assumptions=[]),
     "C11": dict(engine="mvs", category="exploration",
-                text="Histories of 1-5 tidy / upgrade-all / get(path@query) operations (queries: none, latest, upgrade, patch, exact, prefix, >, >=, <, <=) on a root requirement set over the same universes, each applied by the real code in a fresh simulated process. Relational oracle on dawn's own outputs: tidy keeps the build list; upgrade-type gets and upgrade-all lower no project and leave the queried project at or above a lower-bounded/exact request; downgrade-type gets leave it at or below the request (or drop it); names of still-required projects are preserved and not reused; results resolve; every operation terminates; repeating it changes nothing.",
+                text="Histories of 1-5 tidy / upgrade-all / get(path@query) operations (queries: none, latest, upgrade, patch, exact, prefix, >, >=, <, <=, branch ref -> pseudo-version) on a root requirement set over the same universes, each applied by the real code in a fresh simulated process. Relational oracle on dawn's own outputs: tidy keeps the build list; upgrade-type gets and upgrade-all lower no project and leave the queried project at or above a lower-bounded/exact request; downgrade-type gets leave it at or below the request (or drop it); names of still-required projects are preserved and not reused; results resolve; every operation terminates; repeating it changes nothing.",
                 note="Known finding K1 (get is not idempotent when MVS cannot land exactly on the resolved version) is listed in known_findings.json and reported as KNOWN-FINDING.",
                 technique="deterministic simulation: seeded operation histories, relational oracles between successive build lists, termination by step budget",
-                design="§4 C11", real=REAL_E4, rule="one case = one history; every operation costs 3 resolutions", assumptions=["ref/branch queries are not generated (the stub repositories hold one project per revision)"]),
+                design="§4 C11", real=REAL_E4, rule="one case = one history; every operation costs 3 resolutions", assumptions=["branch queries (@main) resolve to pseudo-versions of the head revision; tag refs with slashes are not generated"]),
 })
 
 NOT_APPLICABLE = {
